@@ -174,7 +174,21 @@ def control_serial(F, R):
         R.ob('C04.control-serial', '%s|BufferService::new(16, ..)' % ver, buf == [16], 'control buffer sizes %s' % buf)
 
 
+def no_bypass(F, R):
+    """Responses reach the wire only through the return value of the dispatcher calls (which the io layer
+    orders): the reviewed direct writes of C03.single-writer are the only ones."""
+    import c03, runner
+    from disp import all_dispatchers
+    rep = runner.Report('C03', 'quick')
+    for d in all_dispatchers(F):
+        c03.single_writer(F, rep, d)
+    bad = [i for i in rep.items if not i['ok']]
+    R.ob('C04.queue-head', 'dispatchers|responses-only-through-the-ordered-return-path (C03.single-writer, %d instances)' % len(rep.items), not bad and len(rep.items) >= 4,
+         'a dispatcher writes a response directly to the sink, overtaking responses of earlier requests that are still queued: %s' % '; '.join(i['key'] for i in bad)[:300])
+
+
 def run(F, R):
+    no_bypass(F, R)
     cs = queue_head(F, R)
     slot_per_call(F, R, cs)
     control_serial(F, R)
